@@ -27,6 +27,8 @@ type quotaSpec struct {
 	GCS       int64 `json:"gc_s"`
 	ParentMax int64 `json:"parent_max,omitempty"` // 0 = no parent
 	LimiterOn string `json:"limiter_on"`          // qc | qp
+	// a second limiter on an unrelated fixed-window quota sits behind the concurrency limiter
+	SecondLimiter bool `json:"second_limiter,omitempty"`
 }
 
 type op struct {
@@ -56,10 +58,28 @@ func quotaYAML(q quotaSpec) string {
 	} else {
 		fmt.Fprintf(&sb, "quotas:\n  - id: qc\n    filter:\n      url: a.com/*\n    strategy:\n      concurrent:\n        max_request_count: %d\n        request_expiration_sec: %d\n        gc_interval_sec: %d\n", q.Max, q.ExpireS, q.GCS)
 	}
+	if q.SecondLimiter {
+		// same host, same file (one file per host)
+		out := sb.String()
+		extra := "  - id: qfix2\n    filter:\n      url: a.com/*\n    strategy:\n      fixed_window:\n        max: 100000000\n        interval: 1\n        interval_unit: hour\n"
+		if i := strings.Index(out, "internal_limits:"); i >= 0 {
+			return out[:i] + extra + out[i:]
+		}
+		return out + extra
+	}
 	return sb.String()
 }
 
 func flowYAML(q quotaSpec) string {
+	if q.SecondLimiter {
+		return strings.Replace(strings.Replace(flowYAMLBase(q), "  TooMany:\n", "  Lim2:\n    processor: Limiter\n    parameters:\n      - key: quota_id\n        value: qfix2\n  TooMany:\n", 1),
+			"          condition: below_limit\n      to:\n        processor:\n          name: P\n",
+			"          condition: below_limit\n      to:\n        processor:\n          name: Lim2\n    - from:\n        processor:\n          name: Lim2\n          condition: below_limit\n      to:\n        processor:\n          name: P\n    - from:\n        processor:\n          name: Lim2\n          condition: above_limit\n      to:\n        processor:\n          name: TooMany\n", 1)
+	}
+	return flowYAMLBase(q)
+}
+
+func flowYAMLBase(q quotaSpec) string {
 	return fmt.Sprintf(`name: cflow
 filter:
   url: a.com/*
@@ -132,6 +152,7 @@ func genQuota(r *sim.Rand) quotaSpec {
 			q.LimiterOn = "qp"
 		}
 	}
+	q.SecondLimiter = r.Chance(1, 4)
 	return q
 }
 
@@ -529,7 +550,7 @@ func runSeq(idx int, args sim.Args, r *sim.Rand, q quotaSpec, ops []op, v *sim.V
 		}
 	}
 	if !w.dead && sawRefusal && len(used) > 0 {
-		v.Distinct(fmt.Sprintf("m%d/p%d/l%s/%v", q.Max, q.ParentMax, q.LimiterOn, sim.SortedKeys(used)))
+		v.Distinct(fmt.Sprintf("m%d/p%d/l%s/2nd%v/%v", q.Max, q.ParentMax, q.LimiterOn, q.SecondLimiter, sim.SortedKeys(used)))
 	}
 	if idx%211 == 0 {
 		v.Sample(w.rp("sequential history"))
@@ -547,9 +568,46 @@ func runStampede(idx int, args sim.Args, r *sim.Rand, q quotaSpec, v *sim.Verdic
 		return
 	}
 	defer w.env.Cleanup()
+	capacity := q.cap()
+	// hold phase: N callers arrive at once, the admitted ones keep their slot until all verdicts are
+	// in: the number admitted is the number in flight at that moment
+	for hp := 0; hp < 40 && !w.dead; hp++ {
+		n := r.Range(capacity+1, capacity+12)
+		res := make([]bool, n)
+		var hwg sync.WaitGroup
+		gate := make(chan struct{})
+		for i := 0; i < n; i++ {
+			hwg.Add(1)
+			go func(i int) {
+				defer hwg.Done()
+				<-gate
+				adm, ok := w.request(fmt.Sprintf("c%d-hold%d-%d", idx, hp, i), false)
+				res[i] = adm && ok
+			}(i)
+		}
+		close(gate)
+		hwg.Wait()
+		held := 0
+		for _, a := range res {
+			if a {
+				held++
+			}
+		}
+		v.Count("hold_phases", 1)
+		v.Count("hold_phase_admitted", held)
+		if held > capacity {
+			v.Violate("C02/over-admission/simultaneous-arrivals", fmt.Sprintf("%d simultaneous arrivals, %d admitted and still in flight, maximum %d", n, held, capacity),
+				replay{Case: idx, Seed: args.Seed, Quota: q, Note: fmt.Sprintf("hold phase %d: %d simultaneous arrivals, %d admitted", hp, n, held)})
+			return
+		}
+		for i, a := range res {
+			if a {
+				w.response(fmt.Sprintf("c%d-hold%d-%d", idx, hp, i))
+			}
+		}
+	}
 	workers := r.Range(8, 24)
 	rounds := r.Range(2, 4)
-	capacity := q.cap()
 	var inflight, maxSeen atomic.Int64
 	var tick atomic.Int64
 	var mu sync.Mutex
